@@ -492,6 +492,20 @@ class WsgiApplication(HttpBase):
                 # a generator that yields nothing is an empty sequence
                 p_ctx.out_object = ( iter(()), )
 
+            except Exception as e:
+                # the user code raised before it yielded anything: the call
+                # ends like that of a plain function that raises.
+                if isinstance(e, Fault):
+                    p_ctx.out_error = e
+                else:
+                    logger.exception(e)
+                    p_ctx.out_error = Fault('Server',
+                                            get_fault_string_from_exception(e))
+
+                p_ctx.fire_event('method_exception_object')
+                return self.handle_error(p_ctx, others, p_ctx.out_error,
+                                                                 start_response)
+
         if p_ctx.transport.resp_code is None:
             p_ctx.transport.resp_code = HTTP_200
 
